@@ -84,6 +84,24 @@ HAND = {
          r"\n\s+'shape': digits\.shape,", '', 'C18.b'),
         ('zeros-sampler-ignores-repetitions', 'break', CC + 'work/zeros_sampler.py', 'ZerosSampler.run_sweep',
          r'np\.zeros\(\(repetitions, ', 'np.zeros((1, ', 'C18.c'),
+        ('records-instance-axis-appended-last', 'break', CC + 'study/result.py', 'ResultDict.records',
+         r'data\[:, np\.newaxis, :\]', 'data[:, :, np.newaxis]', 'C18.g'),
+        ('results-added-along-instances', 'break', CC + 'study/result.py', 'Result.__add__',
+         r'axis=0\)', 'axis=1)', 'C18.g'),
+        ('measurements-view-without-instance-guard', 'break', CC + 'study/result.py', 'ResultDict.measurements',
+         r'if instances != 1:\n\s+raise ValueError\([^\n]*\n', 'pass\n', 'C18.g'),
+        ('padding-transposed', 'break', CC + 'sim/simulator_base.py', 'SimulatorBase._run',
+         r'np\.zeros\(\(len\(results\), largest, ', 'np.zeros((largest, len(results), ', 'C18.g'),
+        ('histogram-batches-overwrite', 'break', CC + 'study/result.py', 'Result._vectorized_histogram',
+         r'c\.update\(batch_dict\)', 'c = collections.Counter(batch_dict)', 'C18.f'),
+        ('digits-fold-little-endian', 'break', CC + 'value/digits.py', 'big_endian_digits_to_int',
+         r'for d, b in zip\(digits, base\):', 'for d, b in zip(reversed(digits), reversed(base)):', 'C18.e'),
+        ('digits-fold-raw-numpy-operand', 'break', CC + 'value/digits.py', 'big_endian_digits_to_int',
+         r'result \+= int\(d\)', 'result += d', 'C18.d'),
+        ('int-to-digits-forgets-reverse', 'break', CC + 'value/digits.py', 'big_endian_int_to_digits',
+         r'\n\s+result\.reverse\(\)', '', 'C18.e'),
+        ('repeated-keys-via-transpose', 'twin', CC + 'sim/simulator.py', 'StepResult.sample_measurement_ops',
+         r'np\.array\(v\)\.swapaxes\(0, 1\)', 'np.transpose(np.array(v), (1, 0, 2))', None),
         ('run-via-named-local', 'twin', CC + 'work/sampler.py', 'Sampler.run',
          r'return self\.run_sweep\(program, param_resolver, repetitions\)\[0\]',
          'all_results = self.run_sweep(program, params=param_resolver, repetitions=repetitions)\n        return all_results[0]', None),
